@@ -9,6 +9,7 @@ From Coq Require Import ZArith List Bool Arith Permutation.
 From CTM Require Import Base.Sx Base.SortX Model.Tree Model.Selection Proofs.SelectionP.
 From CTM Require Import Proofs.SelectionPickP Proofs.SelectionDownP Proofs.SelectionNamesP.   (* block "audit repair" below *)
 From CTM Require Import Model.SelectionK Proofs.SelectionKP Proofs.SelectionKSafeP.   (* every genes_at_a_time: section at the end *)
+From CTM Require Import Proofs.SelectionPickKP Proofs.SelectionPickKOrderP.          (* BLOCK "audit 3, A10" at the very end *)
 Import ListNotations.
 Open Scope nat_scope.
 
@@ -292,6 +293,9 @@ Theorem c12_pick_function_order_irrelevant : forall n_genes marks n pairs pairs'
 Proof. exact pick_function_order_irrelevant. Qed.
 Print Assumptions c12_pick_function_order_irrelevant.
 
+(* NOTE (audit 3, A10): `sorter` is ANY function here, so for a non-sort the theorem above only says
+   WIllegal g = WIllegal g.  That a GENUINE argsort gives a legal run that completes (WDone) is
+   c12_numpy_rule_is_legal in the block at the end of this file. *)
 Theorem c12_rules_respect :
   pick_respects pick_first_max /\ (forall sorter, pick_respects (pick_pop sorter)) /\
   (forall nd trace, pick_respects (pick_of_trace nd trace)).
@@ -762,3 +766,181 @@ Example ex_greedyk :
                  (pool0 5 [0; 1; 2] (marks_of [([], [0; 1; 2]); ([], [3; 4]); ([], [])]) 2) with GDone st => chosen st | _ => [] end)
     = [3; 4; 0; 1; 2].
 Proof. vm_compute. repeat split; reflexivity. Qed.
+
+(* ====================================================================================================
+   BLOCK "audit 3, A10".  Model: the additions at the end of Model/SelectionK.v (pop_with, run_with_k /
+   select_with_k, select_parent_k).  Proofs: SelectionPickKP.v, SelectionPickKOrderP.v.
+   Tie: harness/props/c12_downsample.py part (E) (tags 1264-1266), k in {2, 3, 5}.
+   ==================================================================================================== *)
+
+(* ---------------- (i) numpy's rule is LEGAL ----------------
+   is_argsort sorter (SelectionPickKP.v): for every array u, sorter u is a permutation of the indices
+   0..len(u)-1 and the values u[sorter u] do not decrease - what np.argsort guarantees whatever its
+   `kind` and whatever it does with equal values.  For such a sorter the code's own rule - pop(-1) of a
+   list that is re-sorted only when _update_been_filled newly fills a slot (or at its first call), so is
+   STALE in between - always names an unchosen gene of maximal utility and the loop ends in `break`.
+   The invariant (NI): the list holds exactly the genes that are unchosen or were already chosen when
+   it was last sorted, and for each of them the array it was sorted by still gives its utility - the
+   utility array changes only where a slot is newly filled (then the list is re-sorted) or at the gene
+   just chosen; the already-chosen members have negative utility, an unfinished loop has a member of
+   positive utility, so the last member is unchosen and maximal. *)
+Theorem c12_numpy_rule_is_legal : forall n_genes pairs marks n sorter,
+  is_argsort sorter ->
+  exists st', select_with n_genes pairs marks n (pick_pop sorter) = WDone st'.
+Proof. exact numpy_rule_is_legal. Qed.
+Print Assumptions c12_numpy_rule_is_legal.
+
+(* ... hence, with c12_select_with_is_legal_run and c12_spec_holds (c12_coverage): what the code selects
+   with numpy's rule satisfies C12's executable statement *)
+Theorem c12_numpy_rule_meets_spec : forall n_genes pairs marks n sorter,
+  is_argsort sorter -> no_gene_both_ways marks ->
+  exists st', select_with n_genes pairs marks n (pick_pop sorter) = WDone st' /\
+              spec_c12 n_genes pairs marks n (chosen st') = true.
+Proof. exact numpy_rule_meets_spec. Qed.
+Print Assumptions c12_numpy_rule_meets_spec.
+
+(* the same for every genes_at_a_time = k >= 1: each of the up-to-k pops of a batch is pop(-1) of the
+   same list (nothing is recomputed inside a batch); never IndexError, never "chose gene twice", never
+   out of fuel *)
+Theorem c12_numpy_rule_is_legal_batch : forall n_genes pairs marks n sorter k,
+  is_argsort sorter -> 1 <= k ->
+  exists st', select_with_k n_genes pairs marks n k (pick_pop sorter) = WKDone st'.
+Proof. intros n_genes pairs marks n sorter k Hs. exact (numpy_rule_is_legal_k n_genes pairs marks n sorter Hs k). Qed.
+Print Assumptions c12_numpy_rule_is_legal_batch.
+
+Theorem c12_numpy_rule_meets_spec_batch : forall n_genes pairs marks n sorter k,
+  is_argsort sorter -> 1 <= k -> no_gene_both_ways marks ->
+  exists st', select_with_k n_genes pairs marks n k (pick_pop sorter) = WKDone st' /\
+              spec_c12 n_genes pairs marks n (chosen st') = true.
+Proof. intros n_genes pairs marks n sorter k Hs. exact (numpy_rule_meets_spec_k n_genes pairs marks n sorter Hs k). Qed.
+Print Assumptions c12_numpy_rule_meets_spec_batch.
+
+(* the hypothesis is satisfiable: a stable insertion argsort is an argsort (so is, by the tie, the
+   installed np.argsort on every array the harness hands it) *)
+Theorem c12_an_argsort_exists : is_argsort ins_argsort.
+Proof. exact ins_argsort_is_argsort. Qed.
+Print Assumptions c12_an_argsort_exists.
+
+(* ---------------- (ii) the rule-driven loop for every k ----------------
+   a completed select_with_k is a completed batched run (replayk), so every c12_batch_* theorem above
+   applies to it ... *)
+Theorem c12_select_with_k_is_legal_run : forall n_genes pairs marks n k pick st,
+  select_with_k n_genes pairs marks n k pick = WKDone st ->
+  exists batches, replayk n_genes pairs marks n k (chosen (start n_genes pairs marks n)) batches = KDone st.
+Proof. exact select_with_k_is_replayk. Qed.
+Print Assumptions c12_select_with_k_is_legal_run.
+
+(* ... and the old definitions are its k = 1 instances *)
+Theorem c12_select_with_is_k1 : forall n_genes pairs marks n pick,
+  select_with_k n_genes pairs marks n 1 pick = wk_of_wres (select_with n_genes pairs marks n pick).
+Proof. exact select_with_k_one. Qed.
+Print Assumptions c12_select_with_is_k1.
+
+Theorem c12_select_parent_is_k1 : forall pick rm query t parent bh n,
+  select_parent_k 1 pick rm query t parent bh n = pk_of_parent_res (select_parent pick rm query t parent bh n).
+Proof. exact select_parent_k_one. Qed.
+Print Assumptions c12_select_parent_is_k1.
+
+(* pair order, every k >= 0: for every rule that does not look at the order of the chosen lists (numpy's:
+   c12_rules_respect) the two pair orders give the same outcome; on `break`: the same genes popped in
+   the loop in the same order after desperate prefixes that are permutations of each other, the same
+   selected set, counts, flags and utility array *)
+Theorem c12_batch_pair_order_irrelevant : forall n_genes marks n k pairs pairs' pick,
+  Permutation pairs pairs' -> pick_respects pick ->
+  match select_with_k n_genes pairs marks n k pick, select_with_k n_genes pairs' marks n k pick with
+  | WKDone st, WKDone st' =>
+      (exists popped, chosen st = chosen (start n_genes pairs marks n) ++ popped /\
+                      chosen st' = chosen (start n_genes pairs' marks n) ++ popped) /\
+      Permutation (chosen (start n_genes pairs marks n)) (chosen (start n_genes pairs' marks n)) /\
+      Permutation (chosen st) (chosen st') /\
+      (forall s, counts st s = counts st' s) /\ (forall s, filled st s = filled st' s) /\
+      (forall g, utility st g = utility st' g)
+  | WKIllegal g, WKIllegal g' => g = g'
+  | WKStuck, WKStuck => True
+  | WKOutOfFuel, WKOutOfFuel => True
+  | WKRaise e, WKRaise e' => e = e'
+  | _, _ => False
+  end.
+Proof. exact batch_pair_order_irrelevant. Qed.
+Print Assumptions c12_batch_pair_order_irrelevant.
+
+(* renumbering + sort, every k (c12_threshold_core lifted; sel_same_k = sel_same on wkres) *)
+Theorem c12_batch_threshold_core : forall n_genes n k pick marksB marksD idx idxB idxD,
+  pick_respects pick ->
+  (forall g j d, j < length idx -> marksD g (j, d) = marksB g (nth j idx 0, d)) ->
+  Permutation idxB idx -> Permutation idxD (seq 0 (length idx)) ->
+  sel_same_k (chosen (start n_genes idxB marksB n)) (chosen (start n_genes idxD marksD n))
+             (select_with_k n_genes idxB marksB n k pick) (select_with_k n_genes idxD marksD n k pick).
+Proof. exact threshold_core_k. Qed.
+Print Assumptions c12_batch_threshold_core.
+
+(* behemoth threshold, every k: one parent treated as a behemoth or given its downsampled table gets the
+   same selection (same short-circuit, same errors) for every such rule *)
+Theorem c12_batch_threshold_irrelevant : forall k pick rm query t parent n,
+  pick_respects pick -> NoDup (leaf_pairs t parent) ->
+  parent_res_same_k k (thin_genes rm query) t parent n
+    (select_parent_k k pick rm query t parent true n) (select_parent_k k pick rm query t parent false n).
+Proof. exact threshold_irrelevant_k. Qed.
+Print Assumptions c12_batch_threshold_irrelevant.
+
+(* names, every k: composition of c12_batch_in_query_and_marker with c12_thinning_sound and parent_idx *)
+Theorem c12_batch_selected_names_are_query_markers : forall rm query t parent bh idx n k prefix batches st,
+  NoDup (rm_genes rm) ->
+  let rm' := thin_genes rm query in
+  parent_idx rm' t parent bh = Some idx ->
+  replayk (length (rm_genes rm')) idx (marks_of (pair_tables rm')) n k prefix batches = KDone st ->
+  forall j, In j (chosen st) ->
+    exists name i,
+      nth_error (rm_genes rm') j = Some name /\
+      In name query /\
+      nth_error (rm_genes rm) i = Some name /\ (forall i', nth_error (rm_genes rm) i' = Some name -> i' = i) /\
+      exists pr dn up (d : bool), In pr (leaf_pairs t parent) /\ In (pr, (dn, up)) (rm_pairs rm) /\
+                                  In i (if d then up else dn).
+Proof. exact batch_selected_names_are_query_markers. Qed.
+Print Assumptions c12_batch_selected_names_are_query_markers.
+
+(* ... and for the run made by any rule (numpy's included) *)
+Theorem c12_rule_selected_names_are_query_markers : forall rm query t parent bh idx n k pick st,
+  NoDup (rm_genes rm) ->
+  let rm' := thin_genes rm query in
+  parent_idx rm' t parent bh = Some idx ->
+  select_with_k (length (rm_genes rm')) idx (marks_of (pair_tables rm')) n k pick = WKDone st ->
+  forall j, In j (chosen st) ->
+    exists name i,
+      nth_error (rm_genes rm') j = Some name /\
+      In name query /\
+      nth_error (rm_genes rm) i = Some name /\ (forall i', nth_error (rm_genes rm) i' = Some name -> i' = i) /\
+      exists pr dn up (d : bool), In pr (leaf_pairs t parent) /\ In (pr, (dn, up)) (rm_pairs rm) /\
+                                  In i (if d then up else dn).
+Proof. exact rule_selected_names_are_query_markers. Qed.
+Print Assumptions c12_rule_selected_names_are_query_markers.
+
+(* ---------------- non-vacuity of the block ---------------- *)
+(* the insertion argsort on the audit's first array; on the audit's table it completes - with the genes of
+   numpy's list [4;1;0;6;2;3] (ex_python_is_not_first_max) in ANOTHER order (ties), both legal; k = 2
+   (one gene more: the second pop of the last batch) and k = 3 complete as well *)
+Example ex_ins_argsort :
+  ins_argsort [2; 2; 1; 1; 2; 1; 1; 1]%Z = [2; 3; 5; 6; 7; 0; 1; 4].
+Proof. vm_compute. reflexivity. Qed.
+Example ex_numpy_rule_legal :
+  wres_chosen (select_with 8 [0; 1; 2; 3] (marks_of ex_audit_pd) 2 (pick_pop ins_argsort)) = Some [4; 1; 0; 6; 3; 2] /\
+  (match select_with_k 8 [0; 1; 2; 3] (marks_of ex_audit_pd) 2 2 (pick_pop ins_argsort) with
+   | WKDone st => Some (chosen st) | _ => None end) = Some [4; 1; 0; 6; 5; 3; 2] /\
+  (match select_with_k 8 [3; 1; 0; 2] (marks_of ex_audit_pd) 2 3 (pick_pop ins_argsort) with
+   | WKDone st => Some (chosen st) | _ => None end) =
+  (match select_with_k 8 [0; 1; 2; 3] (marks_of ex_audit_pd) 2 3 (pick_pop ins_argsort) with
+   | WKDone st => Some (chosen st) | _ => None end).
+Proof. vm_compute. repeat split; reflexivity. Qed.
+(* a sorter that is NOT an argsort (descending) is caught: the rule names a gene of non-maximal utility *)
+Example ex_not_an_argsort_is_illegal :
+  select_with 8 [0; 1; 2; 3] (marks_of ex_audit_pd) 2 (pick_pop (fun u => rev (ins_argsort u))) = WIllegal 4.
+Proof. vm_compute. reflexivity. Qed.
+(* behemoth or not, k = 2, numpy's rule with the insertion argsort: the same list *)
+Example ex_select_parent_k :
+  (match select_parent_k 2 (pick_pop ins_argsort) ex_rm ex_query ex_tree None true 1 with
+   | PKRun ng (WKDone st) => Some (ng, chosen st) | _ => None end) = Some (5, [0; 4; 3]) /\
+  (match select_parent_k 2 (pick_pop ins_argsort) ex_rm ex_query ex_tree None false 1 with
+   | PKRun ng (WKDone st) => Some (ng, chosen st) | _ => None end) = Some (5, [0; 4; 3]) /\
+  select_parent_k 2 (pick_pop ins_argsort) ex_rm ex_query ex_tree (Some (0, 11%Z)) true 1 = PKSkip.
+Proof. vm_compute. repeat split; reflexivity. Qed.
+(* end of BLOCK "audit 3, A10" *)
